@@ -183,6 +183,10 @@ fn replay(path: &str) -> i32 {
 /// replay every committed regression input of this property (corpus/<id>/*.json)
 fn replay_corpus(ctx: &Ctx, def: &CheckDef) -> (u64, Vec<ViolationRec>, Vec<String>) {
     let dir = ctx.verif_dir.join("corpus").join(&ctx.property);
+    if std::env::var_os("VERIF_NO_CORPUS").is_some() {
+        // sensitivity experiments: judge the generators alone, without the saved regressions
+        return (0, Vec::new(), Vec::new());
+    }
     let mut n = 0;
     let mut v = Vec::new();
     let mut errs = Vec::new();
@@ -254,6 +258,9 @@ fn run(id: &str, tier: Tier, only: Option<&str>) -> i32 {
             break;
         }
         let rep = sec.run(&ctx);
+        if rep.rule == "replay only" {
+            continue;
+        }
         eprintln!(
             "[{}] section {:<28} evals={:<9} nontrivial={:<8} {:.1}s{}",
             id,
